@@ -51,6 +51,10 @@ Lemma filter_length_le {A} (f : A -> bool) l : (length (filter f l) <= length l)
 Proof. induction l as [|x xs IH]; simpl; auto. destruct (f x); simpl; lia. Qed.
 Lemma filter_and_length_le {A} (f g : A -> bool) l : (length (filter (fun x => f x && g x) l) <= length (filter f l))%nat.
 Proof. induction l as [|x xs IH]; simpl; auto. destruct (f x); simpl; [destruct (g x); simpl; lia|auto]. Qed.
+Lemma filter_disjoint_length {A} (f g : A -> bool) l : (forall x, f x && g x = false) ->
+  (length (filter f l) + length (filter g l))%nat = length (filter (fun x => f x || g x) l).
+Proof. intros H. induction l as [|x xs IH]; [reflexivity|]. cbn [filter]. specialize (H x).
+  destruct (f x), (g x); try discriminate; cbn [orb length]; lia. Qed.
 Lemma Sorted_firstn {A} (R : A -> A -> Prop) k l : Sorted R l -> Sorted R (firstn k l).
 Proof. revert k. induction l as [|x xs IH]; intros k H; destruct k; simpl; try constructor.
   - apply IH. now inversion H.
@@ -395,3 +399,138 @@ Proof.
   - unfold spec_okb. rewrite Neg, VFb. cbn [negb]. apply Z.ltb_lt. rewrite Hreach. now apply Herr.
 Qed.
 End Complete.
+
+(* ---------- (2) an answer accepted by the monitor satisfies the property ---------- *)
+Lemma list_eqb_N_eq (a b : list N) : list_eqb N.eqb a b = true -> a = b.
+Proof. revert b. induction a as [|x xs IH]; intros [|y ys]; simpl; try discriminate; auto.
+  rewrite andb_true_iff, N.eqb_eq. intros [-> H]. f_equal. auto. Qed.
+
+Lemma monotone_tail rv v l : monotone rv (v :: l) = true -> monotone rv l = true.
+Proof. destruct l as [|w r]; [reflexivity|]. cbn [monotone]. rewrite andb_true_iff. tauto. Qed.
+
+Section Sound.
+Variable now : Z.
+Variable i : input.
+Hypothesis Hms : NoDup (map mpeer (metrics i)).
+
+Lemma healthy_count_filter l : NoDup l -> healthy_count now i l = Z.of_nat (length (filter (healthy_p now i) l)).
+Proof. intros Hl. set (l' := filter (healthy_p now i) l).
+  assert (E : healthy_count now i l = healthy_count now i l').
+  { unfold healthy_count, holders. do 2 f_equal. apply filter_ext_in. intros m Hm.
+    destruct (healthy_m now i m) eqn:Hh; cbn [andb]; auto.
+    assert (Hp : healthy_p now i (mpeer m) = true) by (unfold healthy_p; now rewrite (metric_of_in i m Hms Hm)).
+    destruct (memN (mpeer m) l) eqn:A; destruct (memN (mpeer m) l') eqn:B; auto.
+    - apply memN_in in A. apply memN_false in B. exfalso. apply B. apply filter_In. auto.
+    - apply memN_in in B. apply memN_false in A. exfalso. apply A. apply filter_In in B. tauto. }
+  rewrite E. apply (holders_count now i (fun x => x) Hms).
+  - now apply NoDup_filter.
+  - intros p Hp. apply filter_In in Hp. apply (healthy_p_iff now i Hms). tauto. Qed.
+
+Lemma monotone_sorted_by_value l :
+  (forall p, In p l -> exists v, value_of i p = Some v) -> monotone (rev i) (vals i l) = true -> sorted_by_value i l.
+Proof. unfold sorted_by_value. induction l as [|p r IH]; intros Hv Hm; [constructor|].
+  destruct (Hv p (or_introl eq_refl)) as [v Ev].
+  assert (Evals : vals i (p :: r) = v :: vals i r) by (unfold vals; simpl; now rewrite Ev).
+  rewrite Evals in Hm. constructor.
+  - apply IH; [intros q Hq; apply Hv; now right | eapply monotone_tail; eauto].
+  - destruct r as [|q r']; constructor. destruct (Hv q (or_intror (or_introl eq_refl))) as [w Ew].
+    assert (Evals2 : vals i (q :: r') = w :: vals i r') by (unfold vals; simpl; now rewrite Ew).
+    rewrite Evals2 in Hm. cbn [monotone] in Hm. apply andb_true_iff in Hm. destruct Hm as [Hm _].
+    intros v' w' Hv' Hw'. apply (has_value_of i Hms) in Hv', Hw'. rewrite Ev in Hv'. rewrite Ew in Hw'.
+    inversion Hv'; inversion Hw'; subst. unfold dir_le. destruct (rev i); now apply N.leb_le. Qed.
+
+Lemma no_better_left_sound (grpb : N -> bool) (grp : N -> Prop) chosen :
+  (forall q, grp q -> grpb q = true) -> no_better_left now i grpb chosen = true -> none_better_left now i grp chosen.
+Proof. intros Hg H q v [m [A [B [C [D [E [F G]]]]]]] Hq Hn p w Hp Hw. unfold no_better_left in H.
+  rewrite forallb_forall in H. specialize (H m A). subst q.
+  assert (S : sortable now i m = true) by (apply sortable_iff; rewrite E; repeat split; auto; discriminate).
+  rewrite S, (Hg _ Hq) in H. apply memN_false in Hn. rewrite Hn, E in H. cbn [negb andb] in H.
+  rewrite forallb_forall in H. apply (has_value_of i Hms) in Hw.
+  specialize (H w (proj2 (in_vals i chosen w) (ex_intro _ p (conj Hp Hw)))).
+  unfold dir_le. destruct (rev i); now apply N.leb_le. Qed.
+
+Theorem alloc_monitor_sound_l l : NoDup (current i) -> valid_factors (rmin i) (rmax i) ->
+  spec_okb now i (ObsOk l) = true -> alloc_spec now i l.
+Proof. intros Hcur [V1 V2] H. unfold spec_okb in H.
+  assert (Neg : (rmin i <? 0) && (rmax i <? 0) = false) by (apply andb_false_iff; left; apply Z.ltb_ge; lia).
+  assert (VFb : (0 <? rmin i) && (rmin i <=? rmax i) = true) by (apply andb_true_iff; split; [apply Z.ltb_lt | apply Z.leb_le]; lia).
+  rewrite Neg, VFb in H. cbn [negb] in H. cbv zeta in H. fold (added_of i l) in H.
+  set (added := added_of i l) in *.
+  set (addp := filter (fun p => memN p (priority i)) added) in *.
+  set (addc := filter (fun p => negb (memN p (priority i))) added) in *.
+  set (cur_h := filter (healthy_p now i) (current i)) in *.
+  rewrite !andb_true_iff in H.
+  destruct H as [[[[[[[[[[[[H1 H2] H3] H4] H5] H6] H7] H8] H9] H10] H11] H12] H13].
+  assert (Hl : NoDup l) by now apply nodupb_NoDup.
+  assert (Hnc : healthy_count now i (current i) = Z.of_nat (length cur_h)) by (apply healthy_count_filter; auto).
+  assert (Hadd : forall p, In p added -> In p (new_candidates now i)).
+  { intros p Hp. rewrite forallb_forall in H3. apply (sortable_p_iff now i Hms). auto. }
+  assert (Hval : forall p, In p added -> exists v, value_of i p = Some v).
+  { intros p Hp. apply Hadd, final_in in Hp. destruct Hp as [m [A [B [C [D _]]]]]. destruct (mval m) as [v|] eqn:V; [|congruence].
+    exists v. apply (has_value_of i Hms). exists m. auto. }
+  constructor.
+  - exact Hl.
+  - intros p Hp Hn. assert (Hf : In p (new_candidates now i)).
+    { apply Hadd. apply filter_In. split; auto. apply negb_true_iff, memN_false. auto. }
+    apply final_healthy in Hf. tauto.
+  - intros Hle p Hh Hc. rewrite Hnc in Hle. apply Z.leb_le in Hle. rewrite Hle in H4. rewrite subsetb_incl in H4. apply H4.
+    apply filter_In. split; auto. now apply (healthy_p_iff now i Hms).
+  - intros Hlt. rewrite Hnc in Hlt. apply Z.leb_gt in Hlt. rewrite Hlt in H4. apply andb_true_iff in H4. destruct H4 as [A B].
+    apply Z.eqb_eq in A. split; auto. intros p Hp. rewrite subsetb_incl in B. apply B in Hp. apply filter_In in Hp.
+    destruct Hp as [Hp Hh]. apply (healthy_p_iff now i Hms) in Hh. auto.
+  - rewrite (healthy_count_filter l Hl). apply Z.leb_le in H5, H6. lia.
+  - intros Hge. rewrite Hnc in Hge. apply Z.ltb_ge in Hge. rewrite Hge in H13. change (added = []). destruct added; [reflexivity|discriminate].
+  - exists addp, addc. split; [change (added = addp ++ addc); now apply list_eqb_N_eq|]. split; [|split; [|split; [|split; [|split; [|split]]]]].
+    + intros p Hp. apply filter_In in Hp. apply memN_in. tauto.
+    + intros p Hp. apply filter_In in Hp. apply memN_false, negb_true_iff. tauto.
+    + apply monotone_sorted_by_value; auto. intros p Hp. apply filter_In in Hp. apply Hval. tauto.
+    + apply monotone_sorted_by_value; auto. intros p Hp. apply filter_In in Hp. apply Hval. tauto.
+    + eapply no_better_left_sound; [|exact H10]. intros q Hq. now apply memN_in.
+    + eapply no_better_left_sound; [|exact H11]. intros q Hq. now apply negb_true_iff, memN_false.
+    + intros Hne q v [m [A [B [C [D [E [F G]]]]]]] Hq. destruct addc as [|c cs]; [congruence|].
+      rewrite forallb_forall in H12. specialize (H12 m A). subst q.
+      assert (S : sortable now i m = true) by (apply sortable_iff; rewrite E; repeat split; auto; discriminate).
+      apply memN_in in Hq. rewrite S, Hq in H12. cbn [andb] in H12. now apply memN_in.
+Qed.
+
+(* an error passes the monitor only when the minimum cannot be reached *)
+Theorem alloc_monitor_err_sound_l : valid_factors (rmin i) (rmax i) ->
+  spec_okb now i ObsErr = true -> reachable now i < rmin i.
+Proof. intros [V1 V2] H. unfold spec_okb in H.
+  assert (Neg : (rmin i <? 0) && (rmax i <? 0) = false) by (apply andb_false_iff; left; apply Z.ltb_ge; lia).
+  assert (VFb : (0 <? rmin i) && (rmin i <=? rmax i) = true) by (apply andb_true_iff; split; [apply Z.ltb_lt | apply Z.leb_le]; lia).
+  rewrite Neg, VFb in H. cbn [negb] in H. now apply Z.ltb_lt. Qed.
+
+(* what `reachable` bounds: any duplicate-free set of usable peers (healthy, and either a current holder or
+   with a numeric metric). Fewer than min reachable = no admissible allocation exists. *)
+Theorem reachable_bounds_usable l : NoDup l ->
+  (forall p, In p l -> healthy now i p /\ (In p (current i) \/ exists m, In m (metrics i) /\ mpeer m = p /\ mval m <> None)) ->
+  Z.of_nat (length l) <= reachable now i.
+Proof. intros Hl Hu. unfold reachable.
+  set (A := fun m => healthy_m now i m && memN (mpeer m) (current i)).
+  set (P := fun m => A m || sortable now i m).
+  assert (E : (length (filter A (metrics i)) + length (filter (sortable now i) (metrics i)))%nat = length (filter P (metrics i))).
+  { unfold P. apply filter_disjoint_length. intros m. unfold A, sortable.
+    destruct (healthy_m now i m), (memN (mpeer m) (current i)); reflexivity. }
+  rewrite E. apply Nat2Z.inj_le. rewrite <- (count_holders P (metrics i) l Hms Hl).
+  - apply filter_and_length_le.
+  - intros p Hp. destruct (Hu p Hp) as [[m [A1 [A2 [A3 [A4 A5]]]]] Hor]. exists m. split; auto. split; auto.
+    unfold P, A. subst p. assert (Hh : healthy_m now i m = true) by (apply healthy_m_iff; auto). rewrite Hh. cbn [andb].
+    destruct (memN (mpeer m) (current i)) eqn:Mc; [reflexivity|]. cbn [orb]. apply memN_false in Mc.
+    destruct Hor as [Hc|[m' [B1 [B2 B3]]]]; [tauto|].
+    assert (Em : m = m') by (apply (nodup_same_peer _ _ _ Hms A1 B1); auto). subst m'.
+    apply sortable_iff. auto.
+Qed.
+End Sound.
+
+(* the monitor on the everywhere case *)
+Theorem alloc_monitor_everywhere_l now i o : rmin i < 0 -> rmax i < 0 -> spec_okb now i o = true -> o = ObsOk [].
+Proof. intros A B. unfold spec_okb. apply Z.ltb_lt in A, B. rewrite A, B. cbn [andb].
+  destruct o as [[|x xs]|]; try discriminate. reflexivity. Qed.
+
+(* composition: the model's answer satisfies the Prop-level property *)
+Corollary alloc_model_satisfies_spec_l now i ord l :
+  (forall xs, Permutation (ord xs) xs) -> NoDup (map mpeer (metrics i)) -> NoDup (current i) ->
+  valid_factors (rmin i) (rmax i) -> allocate now i ord = Ok l -> alloc_spec now i l.
+Proof. intros Ho Hm Hc Hv E. apply alloc_monitor_sound_l; auto.
+  pose proof (alloc_model_passes_monitor_l now i ord Ho Hm Hc) as H. now rewrite E in H. Qed.
